@@ -60,6 +60,9 @@ func VerifC18Schedule() {
 	// configuration arrives as JSON, which cannot carry NaN
 	v.Assume(v.And(cfg.LowSpaceRatio == cfg.LowSpaceRatio, cfg.HighSpaceRatio == cfg.HighSpaceRatio, cfg.TolerantSizeRatio == cfg.TolerantSizeRatio))
 	cfg.MaxSnapshotCount = v.Uint64("maxSnapshotCount")
+	if len(cfg.Schedulers) > 0 && v.Choice("disableADefaultScheduler", 2) == 1 {
+		cfg.Schedulers[0].Disable = true // what `scheduler remove <default>` records
+	}
 	badScheduler := v.Choice("unregisteredScheduler", 2) == 1
 	if badScheduler {
 		cfg.Schedulers = append(cfg.Schedulers, config.SchedulerConfig{Type: "no-such-scheduler"})
@@ -80,6 +83,11 @@ func VerifC18Schedule() {
 		v.Assert("accepted-is-served", v.And(after.LowSpaceRatio == cfg.LowSpaceRatio, after.HighSpaceRatio == cfg.HighSpaceRatio, after.MaxSnapshotCount == cfg.MaxSnapshotCount))
 		re := w.reload().GetScheduleConfig()
 		v.Assert("reload-equals-served", sameSchedule(after, re))
+		if len(after.Schedulers) == len(re.Schedulers) {
+			for i := range after.Schedulers {
+				v.Assert("reload-keeps-scheduler-entries", after.Schedulers[i].Type == re.Schedulers[i].Type && after.Schedulers[i].Disable == re.Schedulers[i].Disable)
+			}
+		}
 		v.Reach("accepted")
 	} else {
 		v.Assert("rejected-keeps-served", sameSchedule(&before, after))
